@@ -90,7 +90,7 @@ InterpreterEnv::InterpreterEnv(std::vector<valtype>& stack_in, const CScript& sc
 
     operational = true;
     set_error(serror, SCRIPT_ERR_UNKNOWN_ERROR);
-    if (script.size() > MAX_SCRIPT_SIZE) {
+    if (sigversion != SigVersion::TAPSCRIPT && script.size() > MAX_SCRIPT_SIZE) {
         set_error(serror, SCRIPT_ERR_SCRIPT_SIZE);
         operational = false;
         return;
